@@ -37,7 +37,8 @@ BIG == 1000000
 
 T0(k) == [k |-> k, name |-> "", size |-> 0, align |-> 1, be |-> FALSE, sg |-> FALSE,
           elem |-> <<>>, lt |-> <<>>, n |-> 0, fields |-> <<>>, vars |-> <<>>,
-          sized |-> TRUE, portable |-> FALSE, dflt |-> 0, style |-> "named"]
+          sized |-> TRUE, portable |-> FALSE, dflt |-> 0, style |-> "named",
+          gen |-> FALSE]    \* written as a generic definition (type parameters for the sized field / element types) and instantiated
 
 \* ---- scalars -----------------------------------------------------------
 Prim(name, s, signed) == [T0("prim") EXCEPT !.name = name, !.size = s, !.align = s, !.sg = signed]
@@ -89,6 +90,9 @@ UEnum(name, ts, vs)   == [T0("enum") EXCEPT !.name = name, !.size = ts, !.vars =
 Portable(t)           == [t EXCEPT !.portable = TRUE]
 WithDefault(t, d)     == [t EXCEPT !.dflt = d]
 Tuple(t)              == [t EXCEPT !.style = "tuple"]
+\* A generic definition `Name<P0: Flat, ..>` instantiated with the field types listed here is, for the format, the
+\* same type as the monomorphic definition: genericity is transparent (the layout rule sees the instance).
+Generic(t)            == [t EXCEPT !.gen = TRUE]
 
 IsScalar(t) == t.k \in {"prim", "pint", "pfloat"}
 IsCLike(t)  == t.k = "enum" /\ \A i \in DOMAIN t.vars : t.vars[i] = <<>>
